@@ -98,13 +98,21 @@ class Driver:
         self.p = subprocess.Popen([self.path], stdin=subprocess.PIPE, stdout=subprocess.PIPE,
                                   stderr=subprocess.DEVNULL, text=True, bufsize=1)
 
-    def req(self, **kw):
+    def req(self, _timeout=None, **kw):
         if self.p is None or self.p.poll() is not None:
             self._start()
         self.n += 1
         try:
             self.p.stdin.write(json.dumps(kw) + "\n")
             self.p.stdin.flush()
+            if _timeout is not None:
+                import select
+                ready, _, _ = select.select([self.p.stdout], [], [], _timeout)
+                if not ready:
+                    self.p.kill()
+                    self.p.wait()
+                    self.p = None
+                    return {"ok": False, "hang": f"no answer within {_timeout}s (driver killed)"}
             line = self.p.stdout.readline()
         except (BrokenPipeError, OSError):
             line = ""
